@@ -11,6 +11,18 @@ def strand_case(r, mix, max_chrom=2, names=None, min_chrom=1):
         g["strand"] = {"all_plus": "+", "all_minus": "-"}.get(mix) or (r.choice(["+", "-", "."]) if mix == "with_dot" else r.choice(["+", "-"]))
     if mix in ("mixed", "with_dot") and not any(g["strand"] == "-" for g in c["genes"]):
         c["genes"][0]["strand"] = "-"
+    if mix == "mixed":
+        # a chromosome with two or more genes has both strands: which gene is exchanged is then visible
+        for ch in sorted(set(g["chrom"] for g in c["genes"])):
+            mine = [g for g in c["genes"] if g["chrom"] == ch]
+            if len(mine) >= 2 and len(set(g["strand"] for g in mine)) == 1:
+                mine[-1]["strand"] = "+" if mine[0]["strand"] == "-" else "-"
+    # every gene gets an element just left of it (of a length of its own): its left and right contents differ, so an exchange that was
+    # not made, or made for another gene, shows in the values served
+    o, sf = (c["tes"][0]["order"], c["tes"][0]["superfam"]) if c["tes"] else ("LTR", "Gypsy")
+    for i, g in enumerate(c["genes"]):
+        if g["start"] > 12 + i:
+            c["tes"].append({"chrom": g["chrom"], "start": g["start"] - 3 - (i % 7), "stop": g["start"] - 2, "order": o, "superfam": sf, "strand": "+"})
     r.shuffle(c["genes"])          # positional iloc / name round trip
     c["mix"] = mix
     return c
